@@ -160,6 +160,21 @@ def rule_positional(ctx, R):
                   'every positional weight is computed on the too_far()==false side',
                   'a positional weight can be produced although Universal2DBox::too_far(candidate, track box) holds '
                   '(or the pre-check was removed / applied to the wrong boxes)')
+        # ... and the pre-check is the ONLY reason for which metric() gives no record at all for a pair: every `None`
+        # definition of the result sits on the too_far()==true side. An early `return None` decided by something else
+        # (the raw confidence against the threshold, before it is raised to the configured minimum) drops pairs that
+        # pass the gate
+        for d_ in (b.defs().get(0, []) if '(std::option::Option<f32>' in str(b.locals[0]) else []):
+            if d_[0] != 'assign' or d_[1] not in b.live_blocks() or d_[3]['rv'].get('k') != 'agg' or d_[3]['rv'].get('v') != 'None':
+                continue
+            conds = path_conditions(b, d_[1])
+            g = [k for k in conds if k.kind == 'bool' and k.expr.kind == 'call' and k.expr.name.endswith('too_far')]
+            n += 1
+            ctx.check(bool(g) and all(k.truth is True for k in g), R, b, kind + ':no-record-only-beyond-bounding-circle-reach',
+                      'None result on the too_far()==true side',
+                      'metric() can answer None (no record for the pair, neither weight nor gate) on a path that is not '
+                      'decided by the bounding-circle pre-check (conditions: %s): pairs that would pass the gate are '
+                      'dropped' % [str(k)[:80] for k in conds if k not in g][:3], d_[3].get('ln', ''))
         # ---- Mahalanobis: calculate_cost(distance(state, candidate), true) / conf
         for c in b.find_calls(BOXF + '::calculate_cost'):
             dist = eb.arg(c, 0)
